@@ -223,6 +223,8 @@ def run_config(programs, others, config):
         k_other += 1
         n_other += 1
     results[p["id"]] = outputs(p["src"], opts if loader else None, loader)
+    if config.get("gc_disable"):
+      gc.collect()   # bound memory: no collection *during* an analysis, one between analyses
   return {"results": results, "hash_probe": hash("pytype"), "hash_randomization": sys.flags.hash_randomization,
           "kept_objects": len(keep), "others_analysed": n_other,
           "monitor": {"evals": mon.evals, "nonempty": mon.nonempty_evals, "errors_seen": mon.errors_seen,
